@@ -85,5 +85,7 @@ RdStrColumn(Get(_, _), ns, w, p) ==
         d == BitsToNat(Get(p + w, 6))       \* octets
     IN IF d = 0 THEN [vs |-> [i \in 1..ns |-> [miss |-> IsAllOnes(mn), raw |-> mn]], n |-> w + 6, ok |-> TRUE, d |-> 0]
        ELSE [vs |-> [i \in 1..ns |-> LET r == Get(p + w + 6 + (i - 1) * 8 * d, 8 * d) IN [miss |-> IsAllOnes(r), raw |-> r]],
-             n |-> w + 6 + ns * 8 * d, ok |-> IsAllZeros(mn) /\ 8 * d = w, d |-> d]
+             \* a foreign encoder may carry the strings in fewer octets than the element has (the sample corpus does):
+             \* the entries are then those d octets
+             n |-> w + 6 + ns * 8 * d, ok |-> IsAllZeros(mn) /\ 8 * d <= w, d |-> d]
 =============================================================================
